@@ -24,6 +24,7 @@ import (
 	"github.com/jig/lisp"
 	"github.com/jig/lisp/lib/call"
 	"github.com/jig/lisp/lisperror"
+	"github.com/jig/lisp/simhook"
 	"github.com/jig/lisp/types"
 )
 
@@ -43,6 +44,7 @@ type n3 struct {
 	Val        string // const: canonical value
 	Site       int    // probe site index
 	Raw        bool   // probe-raw!
+	ErrOnly    bool   // probe-e!: a lib/call builtin whose only result is an error (its value is nil)
 	Wrap       string // wrap kind
 	Kids       []*n3  // do: exprs; throw/wrap: [x]; let: [val, body]; try: body exprs
 	Catch      []*n3  // try: handler exprs (nil: no catch clause)
@@ -81,7 +83,14 @@ func (g *c03Gen) trace(prefix string) *n3 {
 
 func (g *c03Gen) probe(inBody bool) *n3 {
 	g.sites++
-	return &n3{Kind: "probe", Site: g.sites, Raw: g.tp.Chance(LaneWork, 1, 3), RawPanicOK: inBody, BodyOnly: inBody && g.handlerDepth == 0}
+	n := &n3{Kind: "probe", Site: g.sites, RawPanicOK: inBody, BodyOnly: inBody && g.handlerDepth == 0}
+	switch g.tp.Draw(LaneWork, 4) {
+	case 1:
+		n.Raw = true
+	case 2:
+		n.ErrOnly = true
+	}
+	return n
 }
 
 var c03MacroThrowConsts = [][2]string{{"7", "7"}, {`"ms"`, `"ms"`}, {":mk", ":mk"}, {"[1 2]", "[1 2]"}, {"{:reason :arity}", "{:reason :arity}"}, {"nil", "nil"}}
@@ -191,6 +200,9 @@ func (n *n3) render() string {
 	case "probe":
 		if n.Raw {
 			return "(probe-raw! " + strconv.Itoa(n.Site) + ")"
+		}
+		if n.ErrOnly {
+			return "(probe-e! " + strconv.Itoa(n.Site) + ")"
 		}
 		return "(probe! " + strconv.Itoa(n.Site) + ")"
 	case "sym":
@@ -363,7 +375,11 @@ func (m *m3) eval(n *n3) (string, bool, string) {
 			}
 			pf = "budget-timeout-ineligible"
 		}
-		return m.failure(effectiveFault(pf, n.Raw, n.RawPanicOK), n.Site)
+		v, th, o := m.failure(effectiveFault(pf, n.Raw, n.RawPanicOK), n.Site)
+		if !th && n.ErrOnly {
+			v = "nil"
+		}
+		return v, th, o
 	case "mprobe":
 		pf := m.plan[n.Site]
 		if pf == "budget-timeout" {
@@ -491,6 +507,7 @@ func (c03) Run(tp *Tape, opt RunOpt) *RunOut {
 	e.Set(types.Symbol{Val: "probe-raw!"}, types.Func{Fn: func(ctx context.Context, a []types.MalType) (types.MalType, error) {
 		return rt.probe(ctx, a[0].(int), true)
 	}})
+	call.CallOverrideFN(e, "probe-e!", func(ctx context.Context, i int) error { _, err := rt.probe(ctx, i, false); return err })
 	if _, err := lisp.EVAL(context.Background(), mustRead(c03Setup), e); err != nil {
 		panic("c03 setup: " + err.Error())
 	}
@@ -525,6 +542,7 @@ func (c03) Run(tp *Tape, opt RunOpt) *RunOut {
 		var got string
 		var gotTrace []string
 		panicked := ""
+		runaway := false
 		func() {
 			defer func() {
 				if r := recover(); r != nil {
@@ -534,8 +552,14 @@ func (c03) Run(tp *Tape, opt RunOpt) *RunOut {
 			// every plan runs under a deadline of one simulated hour: nothing consumes simulated time
 			// except a budget-timeout fault, which waits for the end of the context it was handed
 			ctx, cancel := context.WithTimeout(context.Background(), time.Hour)
+			spy := &stepSpy{budget: 300000, cancel: cancel}
+			simhook.Install(spy)
 			res, err := lisp.EVAL(ctx, ast, e)
+			simhook.Install(nil)
 			cancel()
+			if spy.runaway {
+				runaway = true
+			}
 			if err != nil {
 				got = "THROWN " + thrown03(err)
 			} else {
@@ -556,6 +580,13 @@ func (c03) Run(tp *Tape, opt RunOpt) *RunOut {
 		out.Stats["plans_executed"]++
 		if len(plan) > 0 {
 			out.Stats["plans_with_fault"]++
+		}
+		if runaway {
+			out.Violations = append(out.Violations, Violation{"C03.result", "does-not-terminate", "EVAL was still running after 300000 evaluation steps; the try semantics of the statement give " + want + "\n  program: " + src + "\n  fault plan: " + planStr(plan)})
+			if firstBad == "" {
+				firstBad = planStr(plan)
+			}
+			continue
 		}
 		if panicked != "" {
 			out.Violations = append(out.Violations, Violation{"C03.panic", normPanic(panicked), "EVAL panicked: " + panicked + "\n  program: " + src + "\n  fault plan: " + planStr(plan)})
